@@ -14,7 +14,7 @@ Extraction "dsgm_model.ml" Base.memN Base.memZ
   Coding.coding_verdict Coding.coding_ok
   ConnChoice.conn_sets ConnChoice.edges_valid ConnChoice.settings_for ConnChoice.combined
   Sup.resolve Sup.resolve_one
-  Timeout.allowed Timeout.run
+  Timeout.allowed Timeout.run Timeout.nrun Timeout.nreach Timeout.nleaks Timeout.nreturned
   Identity.same_graph
   Selector.select Selector.get_best Selector.equalize
   Cache.cache_key Cache.ckey_eqb
